@@ -3,6 +3,7 @@ import WgslVerif.Model.Stages
 import WgslVerif.Model.TypeClosure
 import WgslVerif.Props.C20
 import WgslVerif.Props.C03
+import WgslVerif.Lemmas.TypeClosure
 namespace WgslVerif
 namespace CheckC20
 
@@ -10,8 +11,7 @@ namespace CheckC20
 def fnBound (m : Module) : Nat := m.entries.length * (1 + m.functions.length)
 def stmtBound (m : Module) : Nat :=
   m.entries.length * (maxEntryTicks m + maxTicks m * m.functions.length)
-def maxDeg (m : Module) : Nat := ((List.range m.types.length).map fun t => (typeSucc m t).length).foldr max 0
-def typeBound (m : Module) : Nat := m.globals.length + m.types.length * maxDeg m
+def typeBound (m : Module) : Nat := m.globals.length + maxDeg m * m.types.length
 
 /-- wall-clock budget per call, microseconds (supporting evidence only; generous) -/
 def budgetMicros : Nat := 5000000
